@@ -131,7 +131,10 @@ def _parse_xml_string(xml_string, parser, charset=None):
 
 # see http://www.w3.org/TR/2000/NOTE-SOAP-20000508/
 # section 5.2.1 for an example of how the id and href attributes are used.
-def resolve_hrefs(element, xmlids):
+def resolve_hrefs(element, xmlids, _pending=None):
+    if _pending is None:
+        _pending = set()
+
     for e in element:
         if e.get('id'):
             continue # don't need to resolve this element
@@ -142,7 +145,15 @@ def resolve_hrefs(element, xmlids):
                 # a reference to an id that no element of the document has
                 raise Fault('Client.SoapError', "The href %r does not point "
                                   "to any element" % (e.get('href'),))
-            resolve_hrefs(resolved_element, xmlids)
+
+            if id(resolved_element) in _pending:
+                # the element refers to one that (indirectly) contains it
+                raise Fault('Client.SoapError', "The href %r is circular"
+                                                          % (e.get('href'),))
+
+            _pending.add(id(resolved_element))
+            resolve_hrefs(resolved_element, xmlids, _pending)
+            _pending.discard(id(resolved_element))
 
             # copies the attributes
             [e.set(k, v) for k, v in resolved_element.items()]
